@@ -110,7 +110,9 @@ def drain_round_robin_ok(F: Facts, awaiter, bus, ev, awaited=None):
     same polling loop took from the same bus: between the end of that event's processing and this dequeue, every
     other bus that had an event waiting the whole time must have been served by this loop."""
     mode = 'inline:' + awaiter
-    mine = sorted((seq, b, e) for (b, e), lst in F.deq.items() for (seq, m) in lst if m == mode)
+    # what this polling loop served: every processing it began itself - taken from the queue, or taken over from the
+    # bus's run loop, which had dequeued the event but was still waiting for the global lock
+    mine = sorted((p[0], b, e) for (b, e), lst in F.pe.items() for p in lst if p[2] == mode)
     # only the polling loop of the one await in question (an activation may await several events in turn)
     dq = next((x[0] for x in mine if x[1] == bus and x[2] == ev), None)
     aw = next((a for a in F.awaits if a.actor == awaiter and (awaited is None or a.ev == awaited)
@@ -123,7 +125,7 @@ def drain_round_robin_ok(F: Facts, awaiter, bus, ev, awaited=None):
     prev = next((i for i in range(cur - 1, -1, -1) if mine[i][1] == bus), None)
     if prev is None:
         return True
-    pe_prev = [p[1] for p in F.pe.get((bus, mine[prev][2]), ()) if p[0] > mine[prev][0] and p[1] is not None]
+    pe_prev = [p[1] for p in F.pe.get((bus, mine[prev][2]), ()) if p[0] >= mine[prev][0] and p[1] is not None]
     if not pe_prev:
         return True
     start, end = min(pe_prev), mine[cur][0]
@@ -131,12 +133,13 @@ def drain_round_robin_ok(F: Facts, awaiter, bus, ev, awaited=None):
     for other in F.bus_cfg:
         if other == bus or other in served or F.bus_stopped_before(other, end):
             continue
-        # an event accepted by `other` before `start` and not dequeued by anyone until `end`
+        # an event accepted by `other` before `start` whose processing nobody began until `end` (an event that the
+        # bus's run loop has dequeued but not started is still served by the polling loop)
         for (b2, e2), acc in F.accepted.items():
             if b2 != other or acc > start:
                 continue
-            dq = [s for s, m in F.deq.get((b2, e2), ())]
-            if not dq or min(dq) > end:
+            pb = [p[0] for p in F.pe.get((b2, e2), ())]
+            if not pb or min(pb) > end:
                 return False
     return True
 
@@ -248,18 +251,9 @@ def why_incomplete(F: Facts, ev, depth=0, seen=None):
         causes.add('F2')
     if aborted_unrelated(F, ev):
         causes.add('F5b')
-    if evicted_in_flight(F, ev):
-        causes.add('F11')
-    if aborted_by_self_cancel(F, ev):
-        causes.add('F23')
     for (b, e) in F.accepted:
         if e == ev and F.bus_stopped_before(b):
             causes.add('bus_stopped')
-        if e == ev:
-            k = runloop_killed_by_handler(F, b)
-            # the event was being processed by, or still queued on, a bus whose run loop a handler killed
-            if k is not None and not F.processed(b, ev, before=k):
-                causes.add('F23')
     for c in F.kids.get(ev, ()):
         if c not in F.sig:
             causes |= why_incomplete(F, c, depth + 1, seen)
@@ -302,14 +296,6 @@ def _hang_cause(F: Facts, v):
                 c = set()
             causes |= c or {'unexplained'}
         elif kind == 'wait_idle':
-            kills = runloop_kills(F, what)
-            if kills:
-                # only a call that was already in progress when the loop died is stuck by F23:
-                # a later call restarts the run loop and must return
-                began = [x[1] for x in F.idles if x[0] == what and x[6] == actor and x[2] is None]
-                if began and any(min(began) < k for k in kills):
-                    causes.add('F23')
-                    continue
             st = F.final.get('buses', {}).get(what, {}).get('state')
             names = st[3] if st else ()
             c = set()
@@ -372,8 +358,6 @@ def diagnose(F: Facts, v) -> str:
                     break
             if any(multi_bus_early_signal(F, x) for x in cand):
                 causes.add('F4')
-            if prop == 'C04' and aw is not None and any(runloop_took_legitimately(F, x, aw) for x in [t] + sorted(F.desc(t))):
-                causes.add('F1')
             if prop == 'C04' and held_by_parallel_sibling(F, t, actor, at):
                 causes.add('F15')
             if t not in F.sig:
